@@ -632,6 +632,8 @@ static int _parse_inline(qaconf_t *qaconf, FILE *fp, uint8_t flags,
     int newsectionid = 0;  // temporary store
     void *freethis = NULL;  // userdata to free
     while (doneloop == false && exception == false) {
+        // EXITLOOP() jumps to the clean-up code that releases this.
+        qaconf_cbdata_t *cbdata = NULL;
 
 #define EXITLOOP(fmt, args...) do {                                         \
     _seterrmsg(qaconf, "%s:%d " fmt,                                        \
@@ -662,8 +664,7 @@ static int _parse_inline(qaconf_t *qaconf, FILE *fp, uint8_t flags,
         DEBUG("%s (line=%d)", buf, qaconf->lineno);
 
         // Create a callback data
-        qaconf_cbdata_t *cbdata = (qaconf_cbdata_t*) malloc(
-                sizeof(qaconf_cbdata_t));
+        cbdata = (qaconf_cbdata_t*) malloc(sizeof(qaconf_cbdata_t));
         ASSERT(cbdata != NULL);
         memset(cbdata, '\0', sizeof(qaconf_cbdata_t));
         if (cbdata_parent != NULL) {
